@@ -191,9 +191,12 @@ def explore_state_mode(task):
     world = rw.v1_world(in_order=("in1",), out_order=("out1",), dialog=dialog)
     info0 = {"engine": "E3-world", "prop": "C02", "version": "1.0", "mode": "state-continued", "dialog": dialog}
     choices = []
+    # how the call selects the rails: category list, no options at all, output rails given by name, output off
     for in_v in ("A", "R"):
-        for out_on in (True, False):
+        for out_on in (True, "no-options", "names", False):
             for out_v in (("A", "R", "W") if (in_v == "A" and out_on) else ("A",)):
+                if out_on in ("no-options", "names") and out_v == "W":
+                    continue
                 choices.append((in_v, out_on, out_v))
     nonce = [0]
 
@@ -205,10 +208,15 @@ def explore_state_mode(task):
             nonce[0] += 1
             user_text = f"U{t}x{nonce[0]}q hello"
             verdicts = {"in1": in_v, "out1": "R" if out_v == "R" else ("A" if out_v == "A" else ("W", f"RWout1t{t}x{nonce[0]}q rewritten"))}
-            options = {"rails": ["input", "dialog", "retrieval"] + (["output"] if out_on else [])}
+            if out_on == "no-options":
+                options = None
+            elif out_on == "names":
+                options = {"rails": {"output": ["out1"]}}
+            else:
+                options = {"rails": ["input", "dialog", "retrieval"] + (["output"] if out_on else [])}
             turn = rw.run_turn(world, [{"role": "user", "content": user_text}], verdicts, llm_fn_for("llm", "1.0"), options=options, state=state)
             res["turns"] += 1
-            step = {"t": t, "in": in_v, "output_rails_enabled": out_on, "out": out_v}
+            step = {"t": t, "in": in_v, "output_rails_enabled": out_on if isinstance(out_on, bool) else f"yes ({out_on})", "out": out_v}
             info = dict(info0, history=hist + [step])
 
             def bad(sig, what):
@@ -221,6 +229,7 @@ def explore_state_mode(task):
             res["rail_calls"] += len(out_calls)
             gen = [c for c in turn.llm_calls if "LLMTEXT-" in str(c.get("answer", ""))]
             now = disturbed or in_v == "R" or not out_on or out_v != "A"
+            out_on = bool(out_on)
             if disturbed:
                 res["turns_after_a_block_or_rewrite"] += 1
             if in_v == "A" and gen and out_on:
@@ -253,7 +262,76 @@ def explore_state_mode(task):
     return res
 
 
+V2_PARALLEL = """
+flow main
+  activate h1
+  activate h2
+
+flow h1
+  user said something
+  $text = ..."Answer A"
+  bot say $text
+
+@loop("second")
+flow h2
+  user said something
+  $text = ..."Answer B"
+  bot say $text
+"""
+
+
+def explore_parallel(task):
+    """Colang 2.x: two flows in different interaction loops answer the same utterance with LLM generated
+    text in the same turn - every one of the messages must pass the output rails."""
+    _tag, turns = task
+    res = {"worlds": 1, "turns": 0, "conversations": 0, "rejections": 0, "rewrites": 0, "llm_text_turns": 0,
+           "turns_after_a_block_or_rewrite": 0, "rail_calls": 0, "viol": []}
+    world = rw.v2_world(in_order=("in1",), out_order=("out1",), main=V2_PARALLEL)
+    info0 = {"engine": "E3-world", "prop": "C02", "version": "2.x", "mode": "parallel-loops"}
+    fn = llm_fn_for("llm", "2.x")
+
+    def expand(state, t, hist):
+        if t > turns:
+            res["conversations"] += 1
+            return
+        for out_v in ("A", "R"):
+            turn = rw.run_turn(world, [{"role": "user", "content": f"U{t} hello"}], {"in1": "A", "out1": out_v}, fn, state=state)
+            res["turns"] += 1
+            step = {"t": t, "out": out_v}
+            info = dict(info0, history=hist + [step])
+            if turn.exc is not None:
+                res["viol"].append(("generate-raised:v2:parallel-loops", repr(turn.exc), info))
+                continue
+            texts = [str(c.get("answer", "")).strip().strip('"') for c in turn.llm_calls if "LLMTEXT-" in str(c.get("answer", ""))]
+            checked = {a["text"] for a in turn.actions if a.get("rail") == "out1"}
+            res["rail_calls"] += len(checked)
+            res["llm_text_turns"] += 1 if texts else 0
+            reply = turn.text or ""
+            for x in texts:
+                if x in reply and x not in checked:
+                    res["viol"].append(("unchecked-llm-message-uttered:v2:parallel-loops",
+                                        f"two flows in different loops answered in one turn: {x!r} is in the reply {reply!r} but no output rail was invoked on it (checked: {sorted(checked)})", info))
+                    break
+                if out_v == "R" and x in reply:
+                    res["viol"].append(("rejected-text-in-reply:v2:parallel-loops", f"out1 rejects everything but {x!r} is in the reply {reply!r}", info))
+                    break
+            if out_v == "R":
+                res["rejections"] += 1
+            expand(turn.reply.state, t + 1, hist + [step])
+
+    expand({}, 1, [])
+    seen, uniq = set(), []
+    for v in res["viol"]:
+        if v[0] not in seen:
+            seen.add(v[0])
+            uniq.append(v)
+    res["viol"] = uniq
+    return res
+
+
 def dispatch(task):
+    if task[0] == "parallel":
+        return explore_parallel(task)
     if task[0] == "state-mode":
         return explore_state_mode(task)
     return explore_world(task)
@@ -275,6 +353,7 @@ def tasks(tier):
                         out.append((version, order, dialog, exc, turns))
     for dialog in (False, True):
         out.append(("state-mode", dialog, 2 if tier == "quick" else 3))
+    out.append(("parallel", 2))
     return out
 
 
